@@ -752,6 +752,101 @@ func c06MelDecRandom(c *hx.Ctx, data []byte, n int) {
 	c.Case(fmt.Sprintf("mel-dec %d %s", n, hx.Hex(data)), r)
 }
 
+
+// ---- tiled HTJ2K through the low-level jpeg2000.Encoder (the .201/.202 codecs never tile; C16/C19 configurations) ----
+
+type c06Tile struct{ W, H, Comps, BD, TW, TH, NL, CBW, CBH int }
+
+// c06TiledEncDec encodes and decodes with the HT block coder (ht=true) or the classic T1 coder.
+// outcome: "ok", "mismatch", "err …", "panic …".
+func c06TiledEncDec(t c06Tile, src []byte, ht bool) string {
+	var out string
+	p, msg := hx.Guard(func() {
+		ep := jpeg2000.DefaultEncodeParams(t.W, t.H, t.Comps, t.BD, false)
+		ep.TileWidth, ep.TileHeight = t.TW, t.TH
+		ep.NumLevels = t.NL
+		ep.CodeBlockWidth, ep.CodeBlockHeight = t.CBW, t.CBH
+		ep.ProgressionOrder = 2
+		ep.Lossless = true
+		if ht {
+			ep.HTJ2KMode = true
+			ep.BlockEncoderFactory = func(w, h int) jpeg2000.BlockEncoder { return htj2k.NewHTEncoder(w, h) }
+		}
+		enc, err := jpeg2000.NewEncoder(ep).Encode(append([]byte{}, src...))
+		if err != nil {
+			out = "err encode: " + err.Error()
+			return
+		}
+		d := jpeg2000.NewDecoder()
+		if ht {
+			d.SetBlockDecoderFactory(func(w, h int, _ int) t2.BlockDecoder { return htj2k.NewHTDecoder(w, h) })
+		}
+		if err := d.Decode(enc); err != nil {
+			out = "err decode: " + err.Error()
+			return
+		}
+		if bytes.Equal(d.GetPixelData(), src) {
+			out = "ok"
+		} else {
+			out = "mismatch"
+		}
+	})
+	if p {
+		return "panic " + msg
+	}
+	return out
+}
+
+func c06Tiled(c *hx.Ctx, t c06Tile, gen string) {
+	bps := 1
+	if t.BD > 8 {
+		bps = 2
+	}
+	n := t.W * t.H * t.Comps
+	src := make([]byte, n*bps)
+	for i := 0; i < n; i++ {
+		v := c.R.Intn(1 << uint(t.BD))
+		if bps == 1 {
+			src[i] = byte(v)
+		} else {
+			binary.LittleEndian.PutUint16(src[2*i:], uint16(v))
+		}
+	}
+	in := map[string]any{"width": t.W, "height": t.H, "components": t.Comps, "bitDepth": t.BD, "tileWidth": t.TW, "tileHeight": t.TH,
+		"numLevels": t.NL, "codeBlockWidth": t.CBW, "codeBlockHeight": t.CBH, "progression": "RPCL", "gen": gen, "src": hx.Hex(src)}
+	c.Count("tiled:" + gen)
+	c.Eval(fmt.Sprintf("tiled %+v %s", t, hx.Hex(src)), true)
+	r := c06TiledEncDec(t, src, true)
+	switch {
+	case r == "ok":
+		c.Count("tiled:ht-ok")
+	case strings.HasPrefix(r, "panic"):
+		if strings.Contains(r, "index out of range [-") && strings.Contains(r, "htj2kPrecinctTree") {
+			c.Fail(hx.Failure{Class: "htj2k-tiled-negative-codeblock-index-panic",
+				What:  "jpeg2000.Encoder (HTJ2KMode, tiles smaller than the image, small code-blocks) panics in t2.(*htj2kPrecinctTree).sent: buildTilePacketEncoder derives CBX/CBY from image-sized sub-band offsets (toResolutionCoordinates/getSubbandDimensions) and gets -1: " + r[:c06min(len(r), 300)],
+				Input: in})
+		} else {
+			c.Fail(hx.Failure{Class: "htj2k-tiled-panic-other", What: r[:c06min(len(r), 600)], Input: in})
+		}
+	default:
+		// mismatch / error: is it specific to the HT path? the classic T1 coder on the same tiling is the control
+		rc := c06TiledEncDec(t, src, false)
+		if rc == "ok" {
+			c.Fail(hx.Failure{Class: "htj2k-tiled-roundtrip-ht-only", What: "tiled reversible round trip fails with the HT block coder (" + r + ") but succeeds with the classic T1 coder", Input: in})
+		} else {
+			// same failure with the classic coder: the tile geometry defects of C19 (j2k-tiled-codeblock-index-canvas-vs-local …), not an HT defect
+			c.Count("monitor:tiled-fails-with-classic-coder-too(C19)")
+		}
+	}
+}
+
+func c06min(a, b int) int {
+	if a < b {
+		return a
+	}
+	return b
+}
+
 // ---- main ---------------------------------------------------------------------------------------
 
 func c06(c *hx.Ctx) {
@@ -992,6 +1087,20 @@ func c06(c *hx.Ctx) {
 		if enc, oc := c06Encode(k, src); oc == "ok" {
 			c06TilePartFacts(c, enc, "own", true)
 		}
+	}
+	// 8. tiled HTJ2K (low-level encoder): tiles smaller than the image x small code-blocks x levels
+	c06Tiled(c, c06Tile{W: 16, H: 9, Comps: 1, BD: 8, TW: 8, TH: 16, NL: 1, CBW: 4, CBH: 4}, "witness-min")
+	c06Tiled(c, c06Tile{W: 30, H: 23, Comps: 3, BD: 12, TW: 16, TH: 24, NL: 3, CBW: 4, CBH: 8}, "witness-c16")
+	c06Tiled(c, c06Tile{W: 16, H: 9, Comps: 1, BD: 8, TW: 16, TH: 16, NL: 1, CBW: 4, CBH: 4}, "witness-neighbour-one-tile")
+	nt := 120
+	if c.Thorough() {
+		nt = 1500
+	}
+	for i := 0; i < nt; i++ {
+		t := c06Tile{W: c.R.Range(1, 48), H: c.R.Range(1, 48), Comps: c.R.Pick([]int{1, 1, 3}), BD: c.R.Pick([]int{8, 8, 12, 16}),
+			TW: c.R.Pick([]int{4, 8, 16, 24, 32}), TH: c.R.Pick([]int{4, 8, 16, 24, 32}), NL: c.R.Intn(4),
+			CBW: c.R.Pick([]int{4, 4, 8, 16, 64}), CBH: c.R.Pick([]int{4, 4, 8, 16, 64})}
+		c06Tiled(c, t, "random")
 	}
 	_ = jpeg2000.NewDecoder
 	_ = t2.NewPacketEncoder
